@@ -139,6 +139,8 @@ func (rl *relay) run(src, dst net.Conn) {
 	}
 }
 
+var outDirG = "."
+
 func meta() *lib.PeerMeta { return &lib.PeerMeta{NetworkId: 1, ChainId: 1} }
 
 func frameCase(r *sim.Rng, cw *sim.CaseWriter) {
@@ -261,7 +263,23 @@ func handshakeCase(r *sim.Rng, cw *sim.CaseWriter) {
 	km, _ := crypto.NewBLS12381PrivateKey()   // the attacker's identity
 	eph, _ := crypto.NewEd25519PrivateKey()
 	c1, c2 := net.Pipe()
-	kind := []string{"honest-proof", "proof-of-another-session", "foreign-key-own-signature", "meta-signed-by-another-key", "other-network", "other-chain", "honest-proof", "relayed-session", "relayed-session"}[r.Intn(9)]
+	kind := []string{"honest-proof", "proof-of-another-session", "foreign-key-own-signature", "meta-signed-by-another-key", "other-network", "other-chain", "honest-proof", "relayed-session", "relayed-session",
+		"keyless:multikey-with-no-signer", "keyless:bls-neutral-element", "keyless:ed25519-small-order"}[r.Intn(12)]
+	// identities nobody holds a private key for, with the constant "signature" that verifies under them for every message unless
+	// such keys are refused: a multi-key naming the honest A with an empty signer bitmap and threshold 0, the neutral element of
+	// the BLS group, a small-order ed25519 point
+	var keylessPub, keylessSig []byte
+	switch kind {
+	case "keyless:multikey-with-no-signer":
+		keylessPub, _ = lib.Marshal(&crypto.MultiPublicKey{PublicKeys: [][]byte{kaID.PublicKey().Bytes()}, Bitmap: []byte{0}, Threshold: 0})
+		keylessSig = append([]byte{0xc0}, make([]byte, 95)...)
+	case "keyless:bls-neutral-element":
+		keylessPub = append([]byte{0xc0}, make([]byte, 47)...)
+		keylessSig = append([]byte{0xc0}, make([]byte, 95)...)
+	case "keyless:ed25519-small-order":
+		keylessPub = append([]byte{0x01}, make([]byte, 31)...)
+		keylessSig = append([]byte{0x01}, make([]byte, 63)...)
+	}
 	otherChallenge := r.Bytes(32) // (proof-of-another-session) some other challenge, signed by A
 	// (relayed-session) a REAL session between the honest A and the attacker, in which A proves its identity in good faith: what A
 	// presented there (its signature over that session's challenge, its signed meta) is what a man in the middle can relay to B
@@ -293,6 +311,8 @@ func handshakeCase(r *sim.Rng, cw *sim.CaseWriter) {
 			return &lib.Signature{PublicKey: kaID.PublicKey().Bytes(), Signature: kaID.Sign(otherChallenge)}
 		case "relayed-session":
 			return relayedSig
+		case "keyless:multikey-with-no-signer", "keyless:bls-neutral-element", "keyless:ed25519-small-order":
+			return &lib.Signature{PublicKey: keylessPub, Signature: keylessSig}
 		case "foreign-key-own-signature":
 			return &lib.Signature{PublicKey: kaID.PublicKey().Bytes(), Signature: km.Sign(challenge)}
 		default:
@@ -312,6 +332,10 @@ func handshakeCase(r *sim.Rng, cw *sim.CaseWriter) {
 		}
 		if kind == "relayed-session" {
 			return relayedMeta
+		}
+		if keylessPub != nil {
+			m.Signature = keylessSig
+			return m
 		}
 		return m.Sign(km)
 	}
@@ -337,6 +361,11 @@ func handshakeCase(r *sim.Rng, cw *sim.CaseWriter) {
 			as = 1
 		default:
 			as = 99
+			if keylessPub != nil && bytes.Equal(eb.Address.PublicKey, keylessPub) {
+				as = 77
+				sim.Direct(outDirG, map[string]any{"finding": "handshake-with-keyless-identity", "kind": "the handshake succeeded with an identity for which nobody holds (or needs) a private key",
+					"variant": kind, "identity": fmt.Sprintf("%x", keylessPub)})
+			}
 		}
 	}
 	// the symbolic hello: who signed what. dh is the pairing function of HsCheck
@@ -346,6 +375,8 @@ func handshakeCase(r *sim.Rng, cw *sim.CaseWriter) {
 		signer, signedChallenge, metaSigner = 1, "dh 30 21", 2
 	case "relayed-session":
 		signer, signedChallenge, metaSigner = 1, "dh 30 21", 1
+	case "keyless:multikey-with-no-signer", "keyless:bls-neutral-element", "keyless:ed25519-small-order":
+		signer, signedChallenge, metaSigner = 77, "0", 77 // an identity nobody can sign for: nothing was signed
 	case "foreign-key-own-signature":
 		signer, signedChallenge, metaSigner = 1, "0", 2 // the claimed identity signed nothing: the attacker's signature does not verify under A's key
 	case "meta-signed-by-another-key":
@@ -367,6 +398,7 @@ func main() {
 	outDir := flag.String("outdir", ".", "output directory")
 	_ = flag.String("replay", "", "replay file (cases regenerate deterministically from the seed)")
 	flag.Parse()
+	outDirG = *outDir
 	r := sim.NewRng(sim.SeedFromEnv())
 	imp := "From V Require Import Bytes Frames FramesCheck."
 	w1 := &sim.CaseWriter{OutDir: *outDir, Name: "c17frames", Imports: imp, CaseType: "fr_case", MFun: "fr_mismatches", VFun: "fr_violations", PerShard: 40}
